@@ -4,7 +4,9 @@
   Source map (scico → Lean):
   * `scico/functional/_tvnorm.py` `TVNorm.__init__/__call__/prox` (cached `G`, cached
     `WP, CWT, prox_ndims, prox_slice`; rebuilt when `op.shape[1] != x.shape or op.input_dtype != x.dtype`)
-                                                → `query`, `TV`, `TV.init`, `TV.step`, `TV.run`
+                                                → `query`, `TV`, `TV.init`, `TV.step`, `TV.run`;
+                                                   the same slot when it is filled inside a `jax.jit` trace
+                                                   (also `LinearOperator._adj` created lazily by `adj`) → `queryCtx`, `runCtx`
   * `scico/loss.py` `Loss.__mul__/__rmul__/__truediv__/set_scale` (shallow `copy`, `_grad` rebinding),
     `Functional.__init__` (`self._grad = scico.grad(self.__call__)`), `Functional.grad`
                                                 → `LossObj`, `Heap`, `Heap.mul`, `Heap.div`, `Heap.setScale`,
@@ -70,6 +72,48 @@ def TV.run {ι κ ωG ωP : Type} [DecidableEq κ] (S : TVSpec ι κ ωG ωP) (s
 def TV.fresh {ι κ ωG ωP : Type} (S : TVSpec ι κ ωG ωP) : TVOp ι → (ωG ⊕ ωP)
   | .call i => .inl (S.buildG i)
   | .prox i => .inr (S.buildP i)
+
+
+/-! ## 1b. caches filled while tracing (`jax.jit`) -/
+
+/-- where a call is executed: eagerly, or inside the trace number `t` of some `jax.jit` -/
+inductive ExecCtx where
+  | eager
+  | trace (t : Nat)
+deriving DecidableEq, Repr
+
+/-- a cached object together with the context it was created in: objects created while tracing
+    hold tracers of that trace (every `jnp` operation inside `jax.jit` is staged) -/
+structure Built (ω : Type) where
+  op : ω
+  madeIn : ExecCtx
+
+inductive CtxErr where
+  | leak        -- jax.errors.UnexpectedTracerError
+deriving DecidableEq, Repr
+
+/-- an object made eagerly is usable everywhere, one made in a trace only inside that trace -/
+def usable (madeIn c : ExecCtx) : Bool := madeIn == .eager || madeIn == c
+
+/-- One cache slot queried in context `c`.  `concrete = false` is the code of the pinned tree (the
+    operator is built with whatever values the current context provides); `concrete = true` is the
+    repaired code (`with jax.ensure_compile_time_eval():` around the construction).
+    Also models `LinearOperator._adj` (lazily created adjoint): the key is then trivial. -/
+def queryCtx {ι κ ω : Type} [DecidableEq κ] (concrete : Bool) (opKey : ω → κ) (keyOf : ι → κ) (build : ι → ω)
+    (slot : Option (Built ω)) (c : ExecCtx) (i : ι) : Option (Built ω) × Except CtxErr ω :=
+  let fresh : Built ω := ⟨build i, if concrete then .eager else c⟩
+  match slot with
+  | none => (some fresh, .ok fresh.op)
+  | some b =>
+    if opKey b.op = keyOf i then
+      (some b, if usable b.madeIn c then .ok b.op else .error .leak)
+    else (some fresh, .ok fresh.op)
+
+/-- state after a history of (context, input) queries on one slot -/
+def runCtx {ι κ ω : Type} [DecidableEq κ] (concrete : Bool) (opKey : ω → κ) (keyOf : ι → κ) (build : ι → ω)
+    (slot : Option (Built ω)) : List (ExecCtx × ι) → Option (Built ω)
+  | [] => slot
+  | (c, i) :: h => runCtx concrete opKey keyOf build (queryCtx concrete opKey keyOf build slot c i).1 h
 
 /-! ## 2. rescaled losses: object graph of `copy` + `_grad` rebinding -/
 
